@@ -27,9 +27,57 @@ def check_identity(run, sc, where, replay):
     return good, tot, exp
 
 
+def tree_configs(run, rnd, n_cfg):
+    """IncrementalSage on TreeStorage + TreeImputer (float mode) with a model that reads the dict by position."""
+    import numpy as np
+    from ixai.explainer import IncrementalSage
+    from ixai.storage import TreeStorage
+    from ixai.imputer import TreeImputer
+    from ..probes import Models, Losses
+    for c in range(n_cfg):
+        seed = rnd.randrange(2 ** 31)
+        random.seed(seed)
+        np.random.seed(seed)
+        names = ["c1", "n1", "n2", "c2"][:rnd.choice([2, 3, 4])]
+        cats = [n for n in names if n.startswith("c")]
+        nums = [n for n in names if n.startswith("n")]
+        model = Models(rnd.choice(["positional", "positional", "linear"]), names, exact=False)
+        loss = Losses("sq", exact=False)
+        st = TreeStorage(cat_feature_names=cats, num_feature_names=nums, max_depth=3, leaf_reservoir_length=5,
+                         grace_period=10, seed=seed % 100)
+        use_storage, direct = rnd.random() < .5, rnd.random() < .5
+        imp = TreeImputer(model, st, direct_predict_numeric=direct, use_storage=use_storage)
+        dyn = rnd.random() < .5
+        e = IncrementalSage(model, loss, names, smoothing_alpha=rnd.choice([0.05, 0.5]), storage=st, imputer=imp,
+                            n_inner_samples=rnd.choice([1, 2, 3]), dynamic_setting=dyn)
+        srnd = random.Random(seed)
+        cfg = {"storage": "TreeStorage", "imputer": f"TreeImputer(use_storage={use_storage}, direct_predict_numeric={direct})",
+               "names": names, "model": model.kind, "dynamic": dyn, "seed": seed}
+        run.count("tree-configs")
+        for t in range(40):
+            x = {n: (float(srnd.randrange(3)) if n.startswith("c") else srnd.gauss(0, 1) + (2.0 if t % 7 < 3 else 0.0)) for n in names}
+            y = srnd.gauss(0, 1)
+            try:
+                e.explain_one(x, y)
+            except Exception as ex:
+                run.ok(kind="raised")
+                run.violation("explain-raises", f"tree cfg {cfg} step {t}: {type(ex).__name__}: {ex}", {"cfg": cfg, "step": t})
+                break
+            if t == 0:
+                continue
+            tot = sum(e.importance_values.values())
+            exp = e.explained_loss
+            run.ok(kind="tree-float")
+            if abs(float(tot) - float(exp)) > 1e-9 * (len(names) + 2) * max(1.0, loss.max_abs):
+                run.violation("efficiency-identity", f"tree cfg {cfg} step {t}: sum(importance)={tot!r} explained_loss={exp!r}", {"cfg": cfg, "step": t})
+                break
+            if exp != 0:
+                run.nontriv(("c01-tree", run.shard[0], c, t))
+
+
 def main(run):
     run.level = "exploration"
-    run.rule = ("seeded configurations from the cfg product (mode x alpha x n_inner x d x storage x imputer x "
+    run.rule = ("seeded configurations from the cfg product incl. TreeStorage/TreeImputer with position-reading models (mode x alpha x n_inner x d x storage x imputer x "
                 "name type x model x loss x loss_bigger_is_better, per-call n_inner override / update_storage=False; every 5th configuration with callbacks that fail at random positions, caught by the caller, stream continued); "
                 "the identity is evaluated after EVERY explain_one (all prefixes), == on exact rationals (Q-mode) "
                 "and |diff|<=1e-9*(d+2)*max|loss| in float mode; a (config,step) is non-trivial when "
@@ -39,6 +87,7 @@ def main(run):
     run.require("ixai/explainer/sage/incremental.py:IncrementalSage.explain_one",
                 "ixai/utils/tracker/multi_value.py:MultiValueTracker.update")
     rnd = random.Random(run.shard_seed)
+    tree_configs(run, random.Random(run.shard_seed + 17), 16 if run.tier == "quick" else 40)
     for i in range(N_CFG[run.tier]):
         exact = (i % 3 != 2)
         cfg = gen_cfg(rnd, "sage", exact)
